@@ -26,6 +26,27 @@ type world struct {
 	pool, otherPool *x509.CertPool
 	e               *epb.VMLaunchEndorsement
 	blob            []byte
+	// signCertDER: the world's signing certificate; forged: the forgeries made of parts of e
+	// (replay_test.go), built when first asked for.
+	signCertDER []byte
+	forged      map[string]*epb.VMLaunchEndorsement
+}
+
+// forgery returns the world's forgery of the family: parts of the world's genuine endorsement e
+// (and, for replay/other-payload, the payload of a second genuine endorsement of the same signer
+// that never travels itself).
+func (w *world) forgery(family string) *epb.VMLaunchEndorsement {
+	if w.forged == nil {
+		w.forged = map[string]*epb.VMLaunchEndorsement{}
+	}
+	if w.forged[family] == nil {
+		var other *epb.VMLaunchEndorsement
+		if family == "replay/other-payload" {
+			other = pki.Endorse(golden(map[uint32][]byte{4: measC4}), w.signCertDER, pki.Key(1))
+		}
+		w.forged[family] = forgeReplay(family, w.e, other, replayMeas[family])
+	}
+	return w.forged[family]
 }
 
 type histCfg struct {
@@ -56,12 +77,34 @@ func (w *world) validate(c histCall) (err error) {
 	if c.Cfg.Roots == 1 {
 		opts.RootsOfTrust = w.otherPool
 	}
-	blob := w.blob
-	if c.Cfg.Source == 1 {
-		opts.Endorsement, blob = w.e, nil
-	}
+	e, blob := w.e, w.blob
 	meas := map[string][]byte{"endorsed": measEndorsed4, "other-count": measEndorsed8, "unendorsed": measBad}[c.Kind]
+	if isReplay(c.Kind) {
+		// the forgery is what accompanies the attestation, or what the caller was handed and configured
+		e = w.forgery(c.Kind)
+		blob, meas = mustMarshal(e), replayMeas[c.Kind]
+	}
+	if c.Cfg.Source == 1 {
+		opts.Endorsement, blob = e, nil
+	}
 	return verify.SNPValidateFunc(opts)(attest.SnpAttestation(meas, nil), blob)
+}
+
+// histKinds: the plain kinds (weighted as before the forgeries were added) and the forgery families.
+var histKinds = append([]string{"endorsed", "endorsed", "endorsed", "endorsed", "other-count", "other-count", "unendorsed", "unendorsed"}, replayFamilies...)
+
+// onlySignatureInTheWay: everything the validation of the forgery looks at besides the signature is
+// in order (time inside the certificate's validity, roots trusting its issuer, the forged payload
+// lists the presented measurement under a VMSA count the configuration admits). Used to label
+// cases, never to judge them.
+func onlySignatureInTheWay(c histCall) bool {
+	if c.Cfg.Now != 0 || c.Cfg.Roots != 0 {
+		return false
+	}
+	if c.Kind == "replay/measurement-added" {
+		return c.Cfg.Vmsas == 0
+	}
+	return c.Cfg.Vmsas == 0 || c.Cfg.Vmsas == 4
 }
 
 // Validators with DIFFERENT options that share roots and endorsement: what one of them accepted must
@@ -71,21 +114,21 @@ func TestCrossValidatorHistory(t *testing.T) {
 		t.Skip()
 	}
 	const name = "cross-validator-history"
-	ev.Rule(name, "2-5 successive calls, each through its own freshly built validator; the validators share one signing certificate, endorsement and root pools but are configured differently: a base configuration is drawn {Now while the certificate is valid / after it expired / before it is valid; VMSA count 0, 4, 8; roots trusting the issuer or not; endorsement as blob or Options.Endorsement} and every call changes at most one of these; kinds {endorsed, endorsed for 8 VMSAs, unendorsed}; oracle: each call's accept/reject equals the same call made alone in a twin world (another signing-certificate serial number, own endorsement and pools, never used by anything) computed beforehand; non-trivial = a call follows an accepted call, differs from it in configuration or kind and is rejected in isolation; distinct = history")
+	ev.Rule(name, "2-5 successive calls, each through its own freshly built validator; the validators share one signing certificate, endorsement and root pools but are configured differently: a base configuration is drawn {Now while the certificate is valid / after it expired / before it is valid; VMSA count 0, 4, 8; roots trusting the issuer or not; endorsement as blob or Options.Endorsement} and every call changes at most one of these; history shape {free; genuine-then-forgery = the first call's kind is a genuine one and the last call's a forgery family, the rest as in free}; kinds {endorsed, endorsed for 8 VMSAs, unendorsed, and the forgery families of replay_test.go made of parts of the world's genuine endorsement: its signature replayed over its payload with the 4-VMSA measurement replaced by / with an added unendorsed measurement, its signature replayed over another genuine endorsement's payload, its signer certificate kept in an edited payload signed with a foreign key; the forgery travels as the blob or as Options.Endorsement}; oracle: each call's accept/reject equals the same call made alone in a twin world (another signing-certificate serial number, own endorsement, own forgeries and pools, never used by anything) computed beforehand; an accepted forgery that the twin world rejects is reported under forgery-replaying-parts-of-a-genuine-endorsement-accepted; classes forgery/<family>/after-an-accepted-genuine-call[/only-the-signature-in-the-way] count the forgeries presented after the world's genuine endorsement was accepted [with time, roots and VMSA count such that nothing but the signature check stands between the forgery and acceptance]; non-trivial = a call follows an accepted call, differs from it in configuration or kind and is rejected in isolation; distinct = history")
 	root := pki.MakeCert(pki.CertSpec{CN: "verif-root", Serial: 1, NotBefore: t0.Add(-10 * day), NotAfter: t0.Add(1000 * day), IsCA: true, Key: pki.Key(0)})
 	otherRoot := pki.MakeCert(pki.CertSpec{CN: "verif-other-root", Serial: 2, NotBefore: t0.Add(-10 * day), NotAfter: t0.Add(1000 * day), IsCA: true, Key: pki.Key(2)})
 	serial := int64(1000)
 	newWorld := func() *world {
 		serial++
 		sign := pki.MakeCert(pki.CertSpec{CN: "verif-signer", Serial: serial, NotBefore: t0.Add(-day), NotAfter: t0.Add(500 * day), Key: pki.Key(1), Parent: root, ParentKey: pki.Key(0)})
-		w := &world{pool: x509.NewCertPool(), otherPool: x509.NewCertPool()}
+		w := &world{pool: x509.NewCertPool(), otherPool: x509.NewCertPool(), signCertDER: sign.Raw}
 		w.pool.AddCert(root)
 		w.otherPool.AddCert(otherRoot)
 		w.e = pki.Endorse(golden(map[uint32][]byte{4: measEndorsed4, 8: measEndorsed8}), sign.Raw, pki.Key(1))
 		w.blob, _ = proto.Marshal(w.e)
 		return w
 	}
-	checks(ev.Scale(120, 1500))
+	checks(ev.Scale(200, 2500))
 	rapid.Check(t, func(rt *rapid.T) {
 		base := histCfg{
 			Now:    rapid.SampledFrom([]int{0, 0, 1, 2}).Draw(rt, "now"),
@@ -94,6 +137,10 @@ func TestCrossValidatorHistory(t *testing.T) {
 			Source: rapid.IntRange(0, 1).Draw(rt, "source"),
 		}
 		n := rapid.IntRange(2, 5).Draw(rt, "calls")
+		// shape "genuine-then-forgery": the first call presents the genuine endorsement with a
+		// measurement it lists, the last one a forgery; everything else (configurations, the calls
+		// in between) is drawn as in the free shape.
+		shape := rapid.SampledFrom([]string{"free", "free", "genuine-then-forgery"}).Draw(rt, "shape")
 		var hist []histCall
 		for i := 0; i < n; i++ {
 			c := base
@@ -107,7 +154,13 @@ func TestCrossValidatorHistory(t *testing.T) {
 			case "source":
 				c.Source = rapid.IntRange(0, 1).Draw(rt, "source_i")
 			}
-			hist = append(hist, histCall{Cfg: c, Kind: rapid.SampledFrom([]string{"endorsed", "endorsed", "other-count", "unendorsed"}).Draw(rt, "kind")})
+			kinds := histKinds
+			if shape == "genuine-then-forgery" && i == 0 {
+				kinds = []string{"endorsed", "endorsed", "other-count"}
+			} else if shape == "genuine-then-forgery" && i == n-1 {
+				kinds = replayFamilies
+			}
+			hist = append(hist, histCall{Cfg: c, Kind: rapid.SampledFrom(kinds).Draw(rt, "kind")})
 		}
 		// every call alone, in a world of its own, before the history runs
 		alone := make([]error, n)
@@ -121,8 +174,29 @@ func TestCrossValidatorHistory(t *testing.T) {
 		}
 		nontrivial, class := false, "no-reject-after-accept"
 		sawAccept := -1
+		acceptedGenuine := false
 		for i, c := range hist {
 			got := w.validate(c)
+			if isReplay(c.Kind) {
+				if alone[i] == nil {
+					// Not a matter of re-entrancy (authenticity is another property): nothing is
+					// concluded from this call.
+					ev.Class(name, "inconclusive/forgery-accepted-in-isolation")
+					ev.Note("%s: %s with configuration %s is accepted alone in a world nothing has used", name, c.Kind, c.Cfg)
+				} else if got == nil {
+					ev.Violation(rt, replayKey, "validators sharing roots and endorsement, history %v: call %d (%s) presented a forgery of family %s (parts of the genuine endorsement this history %s) and was ACCEPTED; the same call alone in a world nothing has used is rejected (%v)",
+						render, i, c.Cfg, c.Kind, map[bool]string{true: "had accepted before", false: "had not yet accepted"}[acceptedGenuine], alone[i])
+					return
+				}
+				cl := "forgery/" + c.Kind + "/no-accepted-genuine-call-before"
+				if acceptedGenuine {
+					cl = "forgery/" + c.Kind + "/after-an-accepted-genuine-call"
+					if onlySignatureInTheWay(c) {
+						cl += "/only-the-signature-in-the-way"
+					}
+				}
+				ev.Class(name, cl)
+			}
 			if (got == nil) != (alone[i] == nil) {
 				ev.Violation(rt, "C09/result-depends-on-earlier-validations", "validators sharing roots and endorsement, history %v: call %d (%s, %s) got %s (%v) but %s alone in a world nothing has used (%v)",
 					render, i, c.Cfg, c.Kind, okStr(got), got, okStr(alone[i]), alone[i])
@@ -146,6 +220,7 @@ func TestCrossValidatorHistory(t *testing.T) {
 			}
 			if got == nil {
 				sawAccept = i
+				acceptedGenuine = acceptedGenuine || genuineA(c.Kind)
 			}
 		}
 		ev.Case(name, nontrivial, strings.Join(render, ";"), class, func() any { return map[string]any{"history": render} })
